@@ -181,15 +181,20 @@ func isPadHelper(fn *ssa.Function) (sizeIdx, srcIdx int, ok bool) {
 	if !isIdx {
 		return
 	}
-	okInd := false
+	okInd, okStep := false, false
 	for i, e := range idx.Edges {
 		if !idx.Block().Dominates(idx.Block().Preds[i]) {
 			if k, ok := constInt(e); ok && k == 0 {
 				okInd = true
 			}
+		} else if bo, ok := e.(*ssa.BinOp); ok && bo.Op == token.ADD && bo.X == ssa.Value(idx) {
+			// second sweep (`i--` for `i++`: the loop never ends once padding is needed)
+			if k, ok := constInt(bo.Y); ok && k == 1 {
+				okStep = true
+			}
 		}
 	}
-	if !okInd {
+	if !okInd || !okStep {
 		return
 	}
 	for i, pa := range fn.Params {
